@@ -11,6 +11,7 @@ import json
 import os
 import random
 import sys
+import time
 import traceback
 
 from . import build, capi
@@ -106,6 +107,7 @@ class Ctx(object):
             self._reset_unit()
             before = dict(self.lib.calls)
             self._emit({'e': 'u', 'i': i})
+            t_unit = time.time()
             try:
                 mod.run_unit(self, u)
             except Exception:
@@ -115,7 +117,7 @@ class Ctx(object):
                 os.write(self.hfd, b''.join(self._hbuf))
             calls = {k: v - before.get(k, 0) for k, v in self.lib.calls.items() if v - before.get(k, 0)}
             self._emit({'e': 'ud', 'i': i, 'unit': u, 'evals': self.evals, 'stats': self.stats,
-                        'smax': self.smax, 'samples': self.samples, 'viol': self.viol, 'calls': calls})
+                        'smax': self.smax, 'samples': self.samples, 'viol': self.viol, 'calls': calls, 'secs': round(time.time() - t_unit, 3)})
         self._emit({'e': 'done'})
 
 
